@@ -122,6 +122,17 @@ def angle_deg(u, v):
     return math.degrees(math.atan2(math.sqrt(sum(t * t for t in c)), sum(a * b for a, b in zip(u, v))))
 
 
+def laskar_obliquity_deg(jde):
+    """mean obliquity of the ecliptic, Laskar (Meeus 22.3), degrees; independent of pymeeus"""
+    u = (jde - 2451545.0) / 3652500.0
+    c = [-4680.93, -1.55, 1999.25, -51.38, -249.67, -39.05, 7.12, 27.87, 5.79, 2.45]
+    acc, p = 0.0, u
+    for k in c:
+        acc += k * p
+        p *= u
+    return 23.0 + 26.0 / 60.0 + (21.448 + acc) / 3600.0
+
+
 def helio(planet, jde):
     l, b, r = lib(planet).geometric_heliocentric_position(mk_epoch(jde), tofk5=False)
     return sph(l.rad(), b.rad(), r)
@@ -136,7 +147,8 @@ def planet_call(planet, jde):
 
 
 def p_direction_planet(planet, jde):
-    from pymeeus.Coordinates import mean_obliquity
+    # the obliquity is the oracle's own (Laskar's polynomial, Meeus (22.3), written out here): with the library's
+    # mean_obliquity a defect of that function would sit on both sides of the comparison
     ra, dec, elon, _ = planet_call(planet, jde)
     earth = helio('Earth', jde)
     tau = 0.0
@@ -144,7 +156,7 @@ def p_direction_planet(planet, jde):
         p = helio(planet, jde - tau)
         d = [p[i] - earth[i] for i in range(3)]
         tau = 0.0057755183 * math.sqrt(sum(t * t for t in d))
-    eq = rot_x(d, mean_obliquity(mk_epoch(jde)).rad())
+    eq = rot_x(d, math.radians(laskar_obliquity_deg(mk_epoch(jde).jde())))
     dev = angle_deg(eq, sph(math.radians(ra), math.radians(dec)))
     return dev <= 0.02, {'deviation_deg': dev, 'light_time_days': tau}
 
@@ -160,7 +172,23 @@ def p_elongation_planet(planet, jde):
     ok = abs(ang - elon) <= 0.02 and 0.0 <= elon <= 180.0
     if planet in MAX_ELONG:
         ok = ok and elon <= MAX_ELONG[planet]
-    return ok, {'elongation': elon, 'angle_to_apparent_sun_at_epoch': ang, 'diff_deg': abs(ang - elon)}
+    det = {'elongation': elon, 'angle_to_apparent_sun_at_epoch': ang, 'diff_deg': abs(ang - elon)}
+    if not ok:
+        # what the listed finding says the library does: the Sun one light-time earlier.  A failure that is not
+        # explained by exactly that is not covered by the finding.
+        try:
+            earth = helio('Earth', jde)
+            tau = 0.0
+            for _ in range(4):
+                p = helio(planet, jde - tau)
+                tau = 0.0057755183 * math.sqrt(sum((p[i] - earth[i]) ** 2 for i in range(3)))
+            e2 = mk_epoch(jde - tau)
+            ls2, bs2, _r = Sun.apparent_geocentric_position(e2)
+            sun2 = rot_x(sph(ls2.rad(), bs2.rad()), true_obliquity(e2).rad())
+            det['diff_to_sun_one_light_time_earlier_deg'] = abs(angle_deg(sun2, sph(math.radians(ra), math.radians(dec))) - elon)
+        except Exception as ex:  # noqa
+            det['diff_to_sun_one_light_time_earlier_deg'] = 999.0
+    return ok, det
 
 
 def p_epoch_not_shifted(kind, jde, *rest):
